@@ -57,7 +57,17 @@ namespace TAO_PEGTL_NAMESPACE::internal
          auto m = in.template auto_rewind< rewind_mode::required >();
 
          if( Control< Head >::template match< A, rewind_mode::optional, Action, Control >( in, st... ) ) {
-            memory_input< ParseInput::tracking_mode_v, typename ParseInput::eol_t, typename ParseInput::source_t > i2( m.inputerator(), in.current(), in.source() );
+            using input_t = memory_input< ParseInput::tracking_mode_v, typename ParseInput::eol_t, typename ParseInput::source_t >;
+            const auto make_begin = [ & ]() {
+               if constexpr( std::is_same_v< typename ParseInput::inputerator_t, const char* > ) {
+                  const auto p = in.position( m.inputerator() );  // NOTE: Not efficient with lazy inputs.
+                  return inputerator( m.inputerator(), p.byte, p.line, p.column );
+               }
+               else {
+                  return m.inputerator();
+               }
+            };
+            input_t i2( make_begin(), in.current(), in.source() );
             return m( ( Control< Rule >::template match< A, rewind_mode::optional, Action, Control >( i2, st... ) && ... && ( i2.restart( m ), Control< Rules >::template match< A, rewind_mode::optional, Action, Control >( i2, st... ) ) ) );
          }
          return false;
